@@ -1,7 +1,7 @@
 //! C17 — incremental updates are append-only and take effect.
 //!
 //! Space (all enumerated): base documents x every history of 1..=K edits (K = 2 quick,
-//! 3 thorough) over the edit alphabet
+//! 3 thorough; a third edit takes its value from {x, é} only) over the edit alphabet
 //!   fill(field, v) | fill_many([(f_a, v), (f_b, v')]) | fill_many with a repeated name |
 //!   note add(page, v) | note update(target, v) | note remove(target) | mixed note batches |
 //!   page add | page replacement | page overlay            with v in {x, é, 中, ")("}.
@@ -45,6 +45,8 @@ struct Base {
     name: &'static str,
     bytes: Vec<u8>,
     fields: Vec<&'static str>,
+    /// the library's own reading of the unedited base (filled in at setup)
+    lib0: Option<LibObs>,
 }
 
 fn library_base(modern: bool) -> Result<Vec<u8>, String> {
@@ -972,6 +974,7 @@ pub fn run(rep: &mut Report) {
     rep.assume("an edit the library refuses with an error (e.g. a fill value outside WinAnsi) produces no output and is outside the property; it is counted (coverage.refused_edits) and the history goes on from the unchanged file");
     rep.assume("a history is cut after the first step whose result diverges from the model or that the library itself misreads (later edits would be judged on a misread input); counted in coverage.histories_cut_short");
     rep.assume("the library-authored xref-stream/object-stream base (WriterConfig::modern) is run in the thorough tier only, with one-edit histories over a reduced value menu: the writer numbers its object stream 1000000 and emits a 1 000 001-entry cross-reference stream that costs the library's own reader about 10 CPU-seconds per open; the refpdf-built object-stream base covers that file form at full depth in both tiers");
+    rep.assume("thorough tier: histories of length 3 draw the value of the third edit from {x, é} (the first two edits use the full value menu)");
     rep.assume("touched set: fill = field object(s), their widget annotations, the AcroForm dictionary; note add/remove = the page object or its indirect /Annots array; note update = the annotation; page edits = catalog, page-tree root, /Info, the affected page objects");
 
     let dir = vx::verif_root().join(".scratch").join(format!("C17-{}", std::process::id()));
@@ -986,7 +989,7 @@ pub fn run(rep: &mut Report) {
             continue;
         }
         match library_base(modern) {
-            Ok(b) => bases.push(Base { name: if modern { "library-modern" } else { "library-classic" }, bytes: b, fields: vec!["f1", "f2"] }),
+            Ok(b) => bases.push(Base { name: if modern { "library-modern" } else { "library-classic" }, bytes: b, fields: vec!["f1", "f2"], lib0: None }),
             Err(e) => rep.machinery_error(format!("cannot author library base (modern={modern}): {e}")),
         }
     }
@@ -997,7 +1000,7 @@ pub fn run(rep: &mut Report) {
             rep.machinery_error(format!("crafted base (modern={modern}) fails the strict validator: {issues:?}"));
             continue;
         }
-        bases.push(Base { name: if modern { "crafted-objstm" } else { "crafted-classic" }, bytes: b, fields: vec!["f1", "grp.child", "名é"] });
+        bases.push(Base { name: if modern { "crafted-objstm" } else { "crafted-classic" }, bytes: b, fields: vec!["f1", "grp.child", "名é"], lib0: None });
     }
     // every base must be read identically by both readers before any edit
     let mut base_notes = Vec::new();
@@ -1013,6 +1016,8 @@ pub fn run(rep: &mut Report) {
                     continue;
                 }
                 base_notes.push(json!({"base": b.name, "bytes": b.bytes.len(), "fields": o.fields.keys().collect::<Vec<_>>(), "notes": o.notes.len(), "pages": o.page_texts}));
+                let mut b = b;
+                b.lib0 = Some(l.clone());
                 usable.push(b);
             }
             (a, l) => base_notes.push(json!({"base": b.name, "excluded": true, "reference_error": a.err(), "library_error": l.err()})),
@@ -1052,7 +1057,7 @@ pub fn run(rep: &mut Report) {
                     return;
                 }
             };
-            let mut lib: Option<LibObs> = None;
+            let mut lib: Option<LibObs> = base.lib0.clone();
             let mut known_raw: BTreeMap<String, String> = BTreeMap::new();
             let mut model = logical_of(&obs, &known_raw);
             let mut history: Vec<String> = Vec::new();
@@ -1068,8 +1073,16 @@ pub fn run(rep: &mut Report) {
             for step in 0..max_len {
                 // kinds: [stop] fill fill_many fill_many_dup note_add note_update note_remove batch page_add page_replace page_overlay
                 let first = step == 0;
-                let k = c.choose("edit", if first { 10 } else { 11 });
-                let kind = if first { k + 1 } else { k };
+                // the reduced base runs six representative single edits only
+                const REDUCED_KINDS: [usize; 5] = [1, 4, 5, 6, 9];
+                let kind = if reduced {
+                    REDUCED_KINDS[c.choose("edit", REDUCED_KINDS.len())]
+                } else {
+                    let k = c.choose("edit", if first { 10 } else { 11 });
+                    if first { k + 1 } else { k }
+                };
+                // from the third edit on, values come from {x, é} only (thorough tier)
+                let (nv_fill, nv) = if step >= 2 { (nv_fill.min(2), nv.min(2)) } else { (nv_fill, nv) };
                 if kind == 0 {
                     break;
                 }
